@@ -1014,6 +1014,7 @@ def _rechunk_to_merge_in_boundary_chunks(
 
     rechunked_padded_args = []
     for padded_arg, original_arg in zip(padded_args, original_args):
+        original_arg = _maybe_unpack_vector_component(original_arg)
         original_arg_chunks = original_arg.variable.chunksizes
         merged_boundary_chunks = _get_chunk_pattern_for_merging_boundary(
             grid,
